@@ -112,8 +112,23 @@ func busScenario(r *rand.Rand, emit func(map[string]interface{})) {
 		if multi && op == 0 { // one memory over several complete banks
 			nb := uint32(2 + r.Intn(3))
 			m := 1 + r.Intn(4)
-			err := b.Attach(mems[m], "m", base, base+nb<<16-1)
-			emit(map[string]interface{}{"k": "attach", "m": m, "s": base, "e": base + nb<<16 - 1, "err": err != nil, "panic": false})
+			s0 := base &^ 0xFFFF
+			e0 := s0 + nb<<16 - 1 + []uint32{0, 0, 0x10, 0x8000, 0xFFF0}[r.Intn(5)] // whole banks, or a partial last bank
+			if e0 > 0xFFFFFF {
+				e0 = 0xFFFFFF
+			}
+			err := b.Attach(mems[m], "m", s0, e0)
+			emit(map[string]interface{}{"k": "attach", "m": m, "s": s0, "e": e0, "err": err != nil, "panic": false, "times": 1})
+			for _, a := range []uint32{e0 - 0x20, e0 - 1, e0, s0 + 0x10000, s0 + 0x1FFFF} { // reads at the seams of the range
+				if a > 0xFFFFFF {
+					continue
+				}
+				a := a
+				acc = acc[:0]
+				var v byte
+				p := guard(func() { v = b.EaRead(a) })
+				emit(map[string]interface{}{"k": "read", "a": a, "panic": p != "", "seen": append([][]int{}, acc...), "v": int(v)})
+			}
 			continue
 		}
 		switch {
